@@ -170,6 +170,8 @@ func main() {
 		os.Exit(cmdVerify(os.Args[2:]))
 	case "check":
 		os.Exit(cmdCheck(os.Args[2:]))
+	case "sweep":
+		os.Exit(cmdSweep(os.Args[2:]))
 	default:
 		fmt.Println("unknown command")
 		os.Exit(2)
